@@ -25,6 +25,9 @@ const (
 	// KeptState: a new engine for every request, built WithState/WithMemory around state and cache objects
 	// the application keeps in memory itself (no persister) - a server holding its sessions in a map.
 	KeptState
+	// KeptEngine: ONE engine with a persister for the whole session (the engine.Loop arrangement): every
+	// request is Exec + Flush on the same engine; Finish (the save) is left to the end of the session.
+	KeptEngine
 )
 
 func (m Mode) String() string {
@@ -33,6 +36,9 @@ func (m Mode) String() string {
 	}
 	if m == KeptState {
 		return "kept-state"
+	}
+	if m == KeptEngine {
+		return "long-lived-persister"
 	}
 	return "persisted"
 }
@@ -62,6 +68,7 @@ type Session struct {
 	SharedPe *persist.Persister
 
 	en *engine.DefaultEngine
+	pe *persist.Persister // KeptEngine: the engine's persister
 	// St, Ca: the state and cache objects the engine works on. Long-lived: supplied by the harness;
 	// persisted: the persister's objects after the latest request (nil if the engine never got there).
 	St *state.State
@@ -128,7 +135,7 @@ func (s *Session) newEngine() (*engine.DefaultEngine, *persist.Persister) {
 	if s.Mode == Persisted && s.SharedPe != nil {
 		pe = s.SharedPe.WithSession(s.Cfg.SessionId)
 		en = en.WithPersister(pe)
-	} else if s.Mode == Persisted {
+	} else if s.Mode == Persisted || s.Mode == KeptEngine {
 		store := s.Open()
 		store.SetSession(s.Cfg.SessionId)
 		pe = persist.NewPersister(store)
@@ -188,11 +195,17 @@ func (s *Session) Request(input []byte) (r Resp) {
 	ctx := context.Background()
 	var en *engine.DefaultEngine
 	var pe *persist.Persister
-	if s.Mode == LongLived {
+	if s.Mode == LongLived || s.Mode == KeptEngine {
 		if s.en == nil {
-			s.en, _ = s.newEngine()
+			s.en, s.pe = s.newEngine()
 		}
 		en = s.en
+		if s.pe != nil {
+			defer func() {
+				s.St = s.pe.GetState()
+				s.Ca = s.pe.Memory
+			}()
+		}
 	} else {
 		en, pe = s.newEngine()
 		defer func() {
@@ -206,6 +219,15 @@ func (s *Session) Request(input []byte) (r Resp) {
 	r.Cont = cont
 	r.ExecErr = errStr(err)
 	r.FinishErr = "-" // "-" = Finish was not called
+	if s.Mode == KeptEngine {
+		if err == nil {
+			var w bytes.Buffer
+			_, err = en.Flush(ctx, &w)
+			r.Out = w.String()
+			r.FlushErr = errStr(err)
+		}
+		return
+	}
 	if err != nil {
 		if s.FinishOnError {
 			r.FinishErr = errStr(en.Finish(ctx))
@@ -242,11 +264,22 @@ func (s *Session) Attempt(input []byte, style int) (r Resp) {
 	ctx := context.Background()
 	var en *engine.DefaultEngine
 	var pe *persist.Persister
-	if s.Mode == LongLived {
+	if s.Mode == LongLived || s.Mode == KeptEngine {
 		if s.en == nil {
-			s.en, _ = s.newEngine()
+			s.en, s.pe = s.newEngine()
 		}
 		en = s.en
+		if s.pe != nil {
+			defer func() {
+				if s.pe.GetState() != nil {
+					s.St = s.pe.GetState()
+					s.Ca = s.pe.Memory
+				}
+			}()
+		}
+		if s.Mode == KeptEngine && style >= 2 {
+			style = 1 // the save is left to the end of the session
+		}
 	} else {
 		en, pe = s.newEngine()
 		defer func() {
